@@ -142,7 +142,7 @@ func charLevel(c *fw.Ctx, src string) {
 func C08(c *fw.Ctx) {
 	fullLen, redLen, exprLen, charLen, stmtLen := 4, 5, 7, 3, 8
 	if !c.Quick() {
-		fullLen, redLen, exprLen, charLen, stmtLen = 5, 7, 9, 4, 10
+		fullLen, redLen, exprLen, charLen, stmtLen = 5, 6, 8, 4, 9 // one token more everywhere took 20 minutes; this takes about 6
 	}
 	if c.Tier == "deep" {
 		fullLen, redLen, exprLen, charLen, stmtLen = 6, 8, 10, 4, 11
